@@ -426,7 +426,7 @@ def run_rotate(ctx, cases):
         run_c16_jobs(ctx, c16_jobs)
 
 
-C16_BUDGET = {'quick': 14.0, 'thorough': 600.0}
+C16_BUDGET = {'quick': 10.0, 'thorough': 600.0}
 
 
 def run_c16_jobs(ctx, jobs):
@@ -437,8 +437,11 @@ def run_c16_jobs(ctx, jobs):
     import common
     spent = getattr(ctx, '_c16_spent', 0.0)
     start = spent
+    total = C16_BUDGET[ctx.tier]
+    if ctx.budget_s:
+        total = min(total, 0.2 * ctx.budget_s)      # never more than a fifth of the run's time budget
     for size, _, case, line, out, scale in sorted(jobs, key=lambda j: j[:2]):
-        if spent > C16_BUDGET[ctx.tier] or spent - start > C16_BUDGET[ctx.tier] / 8:
+        if spent > total or spent - start > total / 8:
             ctx.count('corr.rotatec16.not_run_time_budget')
             continue
         t0 = time.time()
@@ -502,10 +505,16 @@ def corpus():
 
 
 def run(ctx):
-    n = {'quick': 1300, 'thorough': 30000}[ctx.tier]
+    n = {'quick': 1100, 'thorough': 30000}[ctx.tier]
     rng = ctx.rng('rotate')
     rr = ctx.rng('registered')
-    cases = corpus() + [gen_registered_case(rr) for _ in range(n // 6)] + [gen_case(rng) for _ in range(n)]
+    # registered-event cases are spread evenly among the general ones, so that a time-boxed run (escalation after a
+    # source change) reaches every kind of case
+    cases = corpus()
+    for i in range(n):
+        if i % 6 == 0:
+            cases.append(gen_registered_case(rr))
+        cases.append(gen_case(rng))
     for i, c in enumerate(cases):
         if i % 211 == 20:
             ctx.sample(c)
